@@ -142,6 +142,20 @@ CLAIMS["C20"] = {
     "note": "Necessary conditions only. " + _TB,
 }
 
+CLAIMS["C12"] = {
+    "text": "Decides the error-discipline clauses of C12 over the whole library: no status of the ~80 status functions "
+            "and no result of the ~40 parse/build functions is dropped (discarded, cast to void, or stored into a local that "
+            "is overwritten or never read) at any of their call sites, except a (caller, callee) table with reasons; every "
+            "failing path of memtable flush, compaction, trivial move, log sync and old-log close latches bg_error, which is "
+            "never cleared, stops scheduling and is yielded first by the writer stall loop; outputs of failed builds are "
+            "removed / destroyed / not installed and the write buffer is emptied on every flush return; every abort() site "
+            "is dominated by a non-I/O cause (allocation, pthread, clock, file-name capacity, empty queue). Contents after "
+            "reopen are not decided.",
+    "design_ref": "DESIGN.md 5/C12",
+    "technique": "static analysis: liveness-based dropped-status analysis over the call graph's status domain, must-pass automata for the error latch, abort-site classification by dominating guard",
+    "note": "The exception table (DROP_OK) and abort-cause table are frozen and part of the trusted base. " + _TB,
+}
+
 _PENDING = ("check not built yet in this revision; the property is listed here so that it is not claimed "
             "without machinery (see DESIGN.md for the planned rules)")
 
